@@ -156,3 +156,81 @@ def run_wild(pid, seed, n, res):
                     {'ops': ops[:i + 1], 'impl': [st['err'], st['out'], st['obs']], 'generated': [go['err'], go['out'], go['obs']]}))
                 break
             prev = a[2]
+
+# ---------------------------------------------------------------------------------------------------------------------
+# round two (notes/NOTES_genexec2.md): graph GENERATION by the generated code (driver op `gen_generate`: generated
+# `lg__generate_graph` + `model_add_*` / `model__from_dict` + `graph___init__` in the environment `PyW.evalEnvOf`)
+def generate_payload(i, lang, inst, **kw):
+    return dict({'op': 'gen_generate', 'case': i, 'lang': lang, 'inst': inst}, **kw)
+
+def _gen_nodes(gg):
+    """the node list of a `gen_generate` answer in the form of `genrun.graph_obs` (defense as float)"""
+    keys = ('id', 'full_name', 'asset', 'name', 'type', 'ttc', 'tags', 'mitre', 'defense', 'exist')
+    return [{k: (n[k] if k != 'defense' or n[k] is None else float(n[k])) for k in keys} for n in gg['nodes']]
+
+def generate_cmp(g: dict, im: dict, edges: str = 'exact') -> tuple:
+    """`g` = `model` part of a `gen_generate` answer, `im` = observation of the real `AttackGraph` (`genrun.graph_obs`, or
+    `{'error': class}`).  Returns (problem | None, drift) — problem: error class, node list (exact: order, ids, every attribute)
+    or edge SET differs; drift: names of the order / multiplicity differences of the children / parents lists (`edges='exact'`
+    turns these into a problem too)."""
+    from .genrun import ERRMAP
+    if 'error' in g or 'error' in im:
+        ge, ie = g.get('error'), im.get('error')
+        ge = ERRMAP.get(ge, ge)
+        return (None if ge == ie else f'on the outcome: generated code {ge or "returns"}, implementation {ie or "returns"}'), []
+    gg = g['graph']
+    gn = _gen_nodes(gg)
+    if gn != im['nodes']:
+        k = next((i for i, (a, b) in enumerate(zip(gn, im['nodes'])) if a != b), min(len(gn), len(im['nodes'])))
+        return f'on the node list (first difference at position {k}: generated {gn[k] if k < len(gn) else None}, implementation {im["nodes"][k] if k < len(im["nodes"]) else None})', []
+    drift = []
+    for key in ('edges', 'parent_edges'):
+        a, b = [tuple(e) for e in gg[key]], [tuple(e) for e in im.get(key, im['edges'])]
+        if a == b: continue
+        if set(a) != set(b):
+            return f'on the {"child" if key == "edges" else "parent"} relation: generated only {sorted(set(a) - set(b))[:4]}, implementation only {sorted(set(b) - set(a))[:4]}', []
+        drift.append(key + (':multiplicity' if sorted(a) != sorted(b) else ':order'))
+    if drift and edges == 'exact':
+        return f'on the order / multiplicity of the children / parents lists ({", ".join(drift)})', drift
+    return None, drift
+
+MAX_EDGES = 4000
+def generate_column(pid: str, res, items: list, edges: str, lookups: bool = False) -> list:
+    """The third column of the generation checks, run AFTER the real code: `items` = [(spec, inst, im, extra)] for the cases
+    the check found nothing wrong with (`im` = observation of the real graph or `{'error': ..}`, `extra` = further payload
+    fields such as lookup keys `ids` / `names`, and under `_lookups` the answers of the real graph, `_replay` more replay data).
+    Cases whose real graph has more than MAX_EDGES list entries are left out (an asset on both sides of one association object
+    multiplies the entries of the children lists — 32 912 for 11 nodes in one C02 case —; the generated code builds them all,
+    but every heap update of the compiled closure heap costs a walk over the earlier ones: 40 s against 0.7 s of CPython)."""
+    from .langgen import lang_payload, inst_payload
+    todo = []
+    for it in items:
+        if 'error' not in it[2] and len(it[2]['edges']) > MAX_EDGES: res.bump('generated_code_skipped:graph-too-large')
+        else: todo.append(it)
+    lp = {}
+    out = run_driver([generate_payload(k, lp.setdefault(id(s), lang_payload(s)), inst_payload(m),
+                                       **{a: b for a, b in x.items() if not a.startswith('_')}) for k, (s, m, im, x) in enumerate(todo)])
+    vs = []
+    for (spec, inst, im, x), o in zip(todo, out):
+        rep = dict({'spec': spec, 'inst': inst}, **x.get('_replay', {}))
+        if 'error' in o:
+            vs.append(driver_error(pid, o['error'], rep)); continue
+        g = o['model']
+        prob, dr = generate_cmp(g, im, edges=edges)
+        res.bump('generated_code_graphs_compared')
+        if 'graph' in g:
+            res.bump('generated_code_nodes_compared', len(g['graph']['nodes'])); res.bump('generated_code_edges_compared', len(g['graph']['edges']))
+        else: res.bump('generated_code_errors_compared')
+        for d in dr: res.bump('generated_code_drift:' + d)
+        op = '_generate_graph'
+        if not prob and lookups and 'graph' in g:
+            gg = g['graph']
+            res.bump('generated_code_lookups_compared', len(x['ids']) + len(x['names']))
+            if g.get('lookups') != x['_lookups']:
+                prob, op = 'on get_node_by_id / get_node_by_full_name of the generated graph', 'get_node_by'
+            elif [e[0] for e in gg['idIdx']] != [n['id'] for n in gg['nodes']] or [e[0] for e in gg['nameIdx']] != [n['full_name'] for n in gg['nodes']] \
+                    or gg['next'][0] != len(gg['nodes']):
+                prob = 'on the indexes of the graph (generated code: keys of _id_to_node / _full_name_to_node, next_node_id)'
+        if prob:
+            vs.append(divergence(pid, op, prob, dict(rep, impl=im, impl_lookups=x.get('_lookups'), generated=g)))
+    return vs
